@@ -81,6 +81,8 @@ pub fn deviations(b: &[u8]) -> Vec<Dev> {
             }
         }
         if let Some(&last) = difat_secs.last() {
+            // the chain of DIFAT sectors ended by the free marker instead of END_OF_CHAIN
+            push("difatEndsFree", 1 + last, &|img| wr32(img, (last + 1) * s + s - 4, 0xffff_ffff));
             // unused entries of the last DIFAT sector padded with zero instead of FREE
             let first_unused = used - 109 - (difat_secs.len() - 1) * (per - 1);
             if first_unused < per - 1 {
